@@ -49,7 +49,7 @@ Arguments len {A} l.
 Fixpoint le_enc (w : nat) (n : N) : list N :=
   match w with
   | O => []
-  | S w' => (n mod 256) :: le_enc w' (n / 256)
+  | S w' => N.land n 255 :: le_enc w' (N.shiftr n 8)     (* n mod 256, n / 256 *)
   end.
 
 Fixpoint le_dec (w : nat) (bs : list N) : option (N * list N) :=
@@ -60,7 +60,7 @@ Fixpoint le_dec (w : nat) (bs : list N) : option (N * list N) :=
       | [] => None
       | b :: r =>
           match le_dec w' r with
-          | Some (n, rest) => Some (b + 256 * n, rest)
+          | Some (n, rest) => Some (b + N.shiftl n 8, rest)      (* b + 256 * n *)
           | None => None
           end
       end
